@@ -720,6 +720,9 @@ class Facts:
     def __init__(self, path):
         with open(path) as fh:
             d = json.load(fh)
+        self.renames = {}
+        if d.get("crate") == "rpm":
+            d = self._canonicalise_renames(d)
         self.path = path
         self.crate = d["crate"]
         self.consts = {}
@@ -755,10 +758,146 @@ class Facts:
 
     def one(self, suffix=None, rx=None):
         r = self.find(suffix, rx)
+        if len(r) == 0 and suffix is not None:
+            alt = self.resolve_renamed(suffix)
+            if alt is not None:
+                return alt
         if len(r) != 1:
             raise AnchorLost("expected exactly one body for %s, found %d: %s" %
                              (suffix or rx, len(r), [b.path for b in r][:6]))
         return r[0]
+
+    def _canonicalise_renames(self, d):
+        """Rules refer to functions by the names they had when the rules were written (known_fns.txt /
+        anchors.json).  If a *non-public* function disappeared and exactly one new function has its signature
+        (impl type, parameter and return types) and is called from one of its recorded callers, it was renamed:
+        the facts are rewritten to the old name so that a pure rename changes nothing a rule sees."""
+        import os
+        here = os.path.dirname(os.path.abspath(__file__))
+        try:
+            with open(os.path.join(here, "anchors.json")) as fh:
+                anchors = json.load(fh)
+            with open(os.path.join(here, "known_fns.txt")) as fh:
+                known = {l.strip() for l in fh if l.strip() and not l.startswith("#")}
+        except OSError:
+            return d
+        present = {}
+        for bd in d["bodies"]:
+            if bd["kind"] != "closure":
+                present[bd["path"]] = bd
+        missing = [p for p, rec in anchors.items() if p not in present and rec.get("vis") != "pub"]
+        if not missing:
+            return d
+        news = [bd for p, bd in present.items() if p not in known and not bd.get("derived")]
+        if not news:
+            return d
+        # callers of each new function
+        callers = {}
+        for bd in d["bodies"]:
+            owner = bd.get("closure_of") or bd["path"]
+            for bl in bd["blocks"]:
+                t = bl["term"]
+                if t["t"] == "call":
+                    fn = (t["func"].get("k") or {}).get("fn")
+                    if fn:
+                        for pth in (fn["path"], (fn.get("r") or {}).get("path")):
+                            if pth:
+                                callers.setdefault(pth, set()).add(owner)
+        pairs = []
+        for old in missing:
+            rec = anchors[old]
+            cands = []
+            for bd in news:
+                args = [bd["locals"][i]["ty"] for i in range(1, bd["argc"] + 1)]
+                if bd.get("impl_self") != rec["impl_self"] or bd.get("impl_trait_full") != rec["impl_trait"]:
+                    continue
+                if args != rec["args"] or bd["locals"][0]["ty"] != rec["ret"]:
+                    continue
+                cands.append(bd)
+            if len(cands) > 1:
+                want = set(rec.get("callers") or [])
+                cands = [bd for bd in cands if callers.get(bd["path"], set()) & want]
+            if len(cands) == 1:
+                pairs.append((old, cands[0]["path"]))
+        # a new function may stand for one old function only
+        used = {}
+        for old, new in pairs:
+            used.setdefault(new, []).append(old)
+        pairs = [(o, n) for (o, n) in pairs if len(used[n]) == 1]
+        if not pairs:
+            return d
+        subs = []
+        for old, new in pairs:
+            self.renames[old] = new
+            old_last, new_last = old.rsplit("::", 1)[-1], new.rsplit("::", 1)[-1]
+            prefix = new.rsplit("::", 1)[0] if "::" in new else ""
+            # tolerate different generic instantiations of the impl type in `full` paths
+            rx = re.escape(prefix)
+            rx = re.sub(r"<[^<>]*>", lambda m: "<[^<>]*(?:<[^<>]*>[^<>]*)*>", rx.replace("\\<", "<").replace("\\>", ">")) if False else re.sub(r"\\<.*?\\>", r"<[^()]*?>", rx)
+            subs.append((re.compile("(" + rx + ")::" + re.escape(new_last) + r"(?![A-Za-z0-9_])"), old_last))
+
+        def walk(x):
+            if isinstance(x, str):
+                for (rx, old_last) in subs:
+                    if "::" in x:
+                        x = rx.sub(lambda m: m.group(1) + "::" + old_last, x)
+                return x
+            if isinstance(x, list):
+                return [walk(y) for y in x]
+            if isinstance(x, dict):
+                return {k: walk(v) for k, v in x.items()}
+            return x
+        return walk(d)
+
+    def resolve_renamed(self, suffix):
+        """An anchored function that no longer exists under its recorded name may just have been renamed:
+        look for exactly one *new* local function (not in known_fns.txt) with the same impl type, parameter and
+        return types and at least one of the recorded callers.  Non-public functions only."""
+        import os
+        if not hasattr(self, "_anchors"):
+            try:
+                with open(os.path.join(os.path.dirname(os.path.abspath(__file__)), "anchors.json")) as fh:
+                    self._anchors = json.load(fh)
+            except OSError:
+                self._anchors = {}
+            try:
+                with open(os.path.join(os.path.dirname(os.path.abspath(__file__)), "known_fns.txt")) as fh:
+                    self._known = {l.strip() for l in fh if l.strip() and not l.startswith("#")}
+            except OSError:
+                self._known = set()
+        olds = [p for p in self._anchors if p == suffix or p.endswith("::" + suffix) or p.endswith(suffix)]
+        if len(olds) != 1:
+            return None
+        rec = self._anchors[olds[0]]
+        if rec.get("vis") == "pub":
+            return None     # renaming public API is an interface change, not a refactor
+        callers_now = {}
+        cands = []
+        for b in self.body_list:
+            if b.kind == "closure" or b.derived or b.path in self._known:
+                continue
+            if b.impl_self != rec["impl_self"] or b.impl_trait_full != rec["impl_trait"]:
+                continue
+            if [b.local_ty(i) for i in range(1, b.argc + 1)] != rec["args"] or b.local_ty(0) != rec["ret"]:
+                continue
+            cands.append(b)
+        if len(cands) > 1 and rec.get("callers"):
+            want = set(rec["callers"])
+            keep = []
+            for cb in cands:
+                cs = set()
+                for b in self.body_list:
+                    for c in b.calls():
+                        if c.rpath == cb.path or c.decl == cb.path:
+                            cs.add(b.closure_of or b.path)
+                if cs & want:
+                    keep.append(cb)
+            cands = keep
+        if len(cands) == 1:
+            self.renamed = getattr(self, "renamed", {})
+            self.renamed[olds[0]] = cands[0].path
+            return cands[0]
+        return None
 
     def const_value(self, suffix):
         for p, c in self.consts.items():
